@@ -200,15 +200,23 @@ def run(ck):
     cfg.run_automaton(f, (0, False), step, edge=edge, start=dd[0].block, start_idx=dd[0].idx + 1)
     ck.ob("C06-R3", "asyncWriteImpl/deferred-consumed-once", not problems, dd[0].loc, f, "; ".join(sorted(set(problems))) or
           "resolve | reject | move-into-requeue exactly once on every iteration path; only the peer-gone arm drops it")
+    # names are derived, not assumed: the progress variable is the local initialised from buffer.offset(); the per-call result is
+    # the local assigned from the writer calls
+    twd = [d for d in f.events("decl") if strip_tmpl(d.get("icall") or "") == T + "BufferHolder::offset"]
+    ck.require(len(twd) == 1, "progress variable (initialised from buffer.offset()) not found in asyncWriteImpl")
+    TW = twd[0]["var"]
+    bwv = {a["lhs"].get("v") for a in f.events("assign") if a.get("op") == "=" and any(w.rsplit("::", 1)[1] + "(" in (a["rhs"].get("t") or "") for w in WRITE_OWNERS)}
+    ck.require(len(bwv) == 1, "result variable of the writer calls not found in asyncWriteImpl (%s)" % bwv)
+    BW = bwv.pop()
     # resolve dominated by the completion test and carries totalWritten
     dom = cfg.dominators(f)
     res = [e for e in f.events("call") if consumption(e) == "resolve"]
     ck.require(res, "deferred.resolve not found")
-    tests = [b for b in f.blocks.values() if b.term and b.term.get("k") == "if" and b.term.get("cmp") in (">=", "==") and (b.term.get("lhs") or {}).get("v") == "totalWritten"
+    tests = [b for b in f.blocks.values() if b.term and b.term.get("k") == "if" and b.term.get("cmp") in (">=", "==") and (b.term.get("lhs") or {}).get("v") == TW
              and "size" in ((b.term.get("rhs") or {}).get("t") or "")]
     for e in res:
         t_ok = any(cfg.edge_dominates(f, b.id, 0, e) for b in tests)
-        a_ok = "totalWritten" in (e["args"][0].get("t") or "")
+        a_ok = TW in (e["args"][0].get("t") or "")
         ck.ob("C06-R3", "asyncWriteImpl/resolve-after-last-byte", t_ok and a_ok, e.loc, f, "dominated by totalWritten >= buffer.size(): %s; argument is totalWritten: %s" % (t_ok, a_ok))
     # re-queue carries the unwritten tail
     pf = [e for e in f.calls(lambda e: e.base_callee() == "std::deque::push_front")]
@@ -216,12 +224,12 @@ def run(ck):
     for e in pf:
         det = [d for d in f.events("decl") if strip_tmpl(d.get("icall") or "") == T + "BufferHolder::detach"]
         dcall = [c for c in f.calls(lambda c: c.get("callee") == T + "BufferHolder::detach")]
-        ok = bool(det) and bool(dcall) and (dcall[0]["args"][0].get("v") == "totalWritten") and det[0]["var"] in (e.get("t") or "") and cfg.ev_dominates(dom, det[0], e)
+        ok = bool(det) and bool(dcall) and (dcall[0]["args"][0].get("v") == TW) and det[0]["var"] in (e.get("t") or "") and cfg.ev_dominates(dom, det[0], e)
         ck.ob("C06-R3", "asyncWriteImpl/requeue-carries-tail", ok, e.loc, f, "push_front(WriteEntry(move(deferred), %s = buffer.detach(totalWritten), flags))" % (det[0]["var"] if det else "?"))
     # progress accounting
-    tw = [d for d in f.events("decl") if d.get("var") == "totalWritten"]
-    adv = [a for a in f.events("assign") if (a["lhs"].get("v") == "totalWritten")]
-    ok = len(tw) == 1 and strip_tmpl(tw[0].get("icall") or "") == T + "BufferHolder::offset" and len(adv) == 1 and adv[0].get("op") == "+=" and adv[0]["rhs"].get("v") == "bytesWritten"
+    tw = twd
+    adv = [a for a in f.events("assign") if (a["lhs"].get("v") == TW)]
+    ok = len(tw) == 1 and strip_tmpl(tw[0].get("icall") or "") == T + "BufferHolder::offset" and len(adv) == 1 and adv[0].get("op") == "+=" and adv[0]["rhs"].get("v") == BW
     ok = ok and all(cfg.ev_dominates(dom, adv[0], b.elems[-1]) for b in tests if b.elems)
     ck.ob("C06-R3", "asyncWriteImpl/progress-accounting", ok, tw[0].loc if tw else f.loc, f,
           "totalWritten = buffer.offset(); totalWritten += bytesWritten before the completion test" if ok else "progress accounting shape not recognised")
@@ -229,5 +237,5 @@ def run(ck):
     for w in f.calls(lambda e: e.get("callee") in WRITE_OWNERS):
         args = " ".join(a.get("t") or "" for a in w.get("args", []))
         defs = {d["var"]: d for d in f.events("decl")}
-        uses_tw = any("totalWritten" in " ".join(defs[a.get("v")].get("refs") or []) + ((defs[a.get("v")].get("init") or {}).get("t") or "") for a in w.get("args", []) if a.get("v") in defs)
+        uses_tw = any(TW in " ".join(defs[a.get("v")].get("refs") or []) + ((defs[a.get("v")].get("init") or {}).get("t") or "") for a in w.get("args", []) if a.get("v") in defs)
         ck.ob("C06-R3", "asyncWriteImpl/%s-starts-at-totalWritten" % w["callee"].replace(T, ""), uses_tw, w.loc, f, "arguments: %s" % args)
